@@ -164,7 +164,7 @@ pub struct Ctx {
     pub budget_hit: bool,
 }
 
-pub const MAX_DIGESTS: usize = 400_000;
+pub const MAX_DIGESTS: usize = 60_000;
 pub const MAX_SAMPLES: usize = 6;
 pub const MAX_VIOLATIONS: usize = 40;
 
